@@ -437,3 +437,253 @@ func blockDominatedByEdge(fn *ssa.Function, b *ssa.BasicBlock, g Guard) bool {
 }
 
 func constStringVal(c *types.Const) string { return constant.StringVal(c.Val()) }
+
+// errorPropagated: the error result of `call` cannot be dropped by fn: either it is tested and the failing edge returns a
+// non-nil error (the `if err != nil { return …err }` idiom), or every return reachable after the call returns that very
+// error value (the `_, err = f(); return err` idiom) or a provably non-nil error.
+func errorPropagated(fn *ssa.Function, call ssa.CallInstruction, forbidden func(ssa.Instruction) bool) bool {
+	cv, ok := call.(*ssa.Call)
+	if !ok {
+		return false
+	}
+	for _, g := range errNilGuards(fn, func(c *ssa.Call) bool { return c == cv }) {
+		if failEdgeReturnsError(fn, g, forbidden) {
+			return true
+		}
+	}
+	// direct return of the error
+	var errV ssa.Value
+	if isErrorType(cv.Type()) {
+		errV = cv
+	} else if cv.Referrers() != nil {
+		for _, rr := range *cv.Referrers() {
+			if ex, isEx := rr.(*ssa.Extract); isEx && isErrorType(ex.Type()) {
+				errV = ex
+			}
+		}
+	}
+	k := errResultIndex(fn)
+	if errV == nil || k < 0 {
+		return false
+	}
+	n := 0
+	for _, ret := range returnsOf(fn) {
+		if !reachesFrom(fn, cv, ret) {
+			continue
+		}
+		n++
+		rv := ret.Results[k]
+		if u, isU := rv.(*ssa.UnOp); isU && u.Op == token.MUL {
+			if a, isA := u.X.(*ssa.Alloc); isA {
+				if sv := lastStoreBefore(a, u); sv != nil {
+					rv = sv
+				}
+			}
+		}
+		if rv == errV {
+			continue
+		}
+		if c, _ := callOf(rv); c != nil && len(c.Call.Args) > 0 {
+			// wrapped: errorsmod.Wrap(err, …) keeps nil as nil and non-nil as non-nil
+			if fo := calleeObj(c); fo != nil && fo.Pkg() != nil && (fo.Pkg().Path() == "cosmossdk.io/errors" || fo.Pkg().Path() == "github.com/pkg/errors") && strings.HasPrefix(fo.Name(), "Wrap") && c.Call.Args[0] == errV {
+				continue
+			}
+		}
+		if provablyNonNilErr(rv, ret.Block(), map[ssa.Value]bool{}) {
+			continue
+		}
+		return false
+	}
+	return n > 0
+}
+
+// ---------------------------------------------------------------- private helper regions
+//
+// A rule written against function F must not fire merely because a few statements of F were extracted into a private
+// helper. A Region is F together with the same-package helpers that are called from exactly one site, that site lying inside
+// the region; the helper's parameters are bound to the arguments of that one site, so value identity ("the amount", "the
+// `to` address") can be followed from the helper up into F.
+type Region struct {
+	e     *Engine
+	Root  *ssa.Function
+	Fns   []*ssa.Function
+	in    map[*ssa.Function]bool
+	site  map[*ssa.Function]ssa.CallInstruction // helper → its single call site
+	owner map[*ssa.Function]*ssa.Function       // helper → function containing the site
+}
+
+func (e *Engine) privateRegion(root *ssa.Function) *Region {
+	r := &Region{e: e, Root: root, in: map[*ssa.Function]bool{root: true}, site: map[*ssa.Function]ssa.CallInstruction{}, owner: map[*ssa.Function]*ssa.Function{}}
+	r.Fns = []*ssa.Function{root}
+	pkg := pkgPathOf(root)
+	// call sites of every function of the package (computed once per package)
+	sites := map[*ssa.Function][]callSite{}
+	for _, f := range e.SrcFuncs(func(p string) bool { return p == pkg }) {
+		for _, c := range callsIn(f, false, func(ssa.CallInstruction) bool { return true }) {
+			if sc := c.Common().StaticCallee(); sc != nil && pkgPathOf(sc) == pkg {
+				sites[sc] = append(sites[sc], callSite{f, c})
+			}
+		}
+	}
+	changed := true
+	for changed && len(r.Fns) < 12 {
+		changed = false
+		for _, f := range append([]*ssa.Function{}, r.Fns...) {
+			for _, c := range callsIn(f, false, func(ssa.CallInstruction) bool { return true }) {
+				h := c.Common().StaticCallee()
+				if h == nil || r.in[h] || h.Blocks == nil || pkgPathOf(h) != pkg || h.Parent() != nil {
+					continue
+				}
+				if obj := h.Object(); obj == nil || obj.Exported() {
+					continue
+				}
+				if ss := sites[h]; len(ss) != 1 || !r.in[ss[0].Fn] {
+					continue
+				}
+				// the helper must not be used as a value (method value / closure) anywhere: StaticCallee sites only — approximated
+				r.in[h] = true
+				r.Fns = append(r.Fns, h)
+				r.site[h] = c
+				r.owner[h] = f
+				changed = true
+			}
+		}
+	}
+	return r
+}
+
+// Resolve follows single-store spills, value-preserving conversions and, for parameters of region helpers, the argument
+// at the helper's call site.
+func (r *Region) Resolve(v ssa.Value) ssa.Value {
+	for i := 0; i < 8; i++ {
+		v = resolveLocal(v)
+		p, ok := v.(*ssa.Parameter)
+		if !ok {
+			return v
+		}
+		f := p.Parent()
+		s, bound := r.site[f]
+		if !bound {
+			return v
+		}
+		idx := paramIndex(p)
+		args := s.Common().Args
+		if idx < 0 || idx >= len(args) {
+			return v
+		}
+		v = args[idx]
+	}
+	return v
+}
+
+// Calls lists the calls matching pred in the root and its helpers.
+func (r *Region) Calls(pred func(ssa.CallInstruction) bool) []ssa.CallInstruction {
+	var out []ssa.CallInstruction
+	for _, f := range r.Fns {
+		out = append(out, callsIn(f, false, pred)...)
+	}
+	return out
+}
+
+// Anchor maps an instruction inside a helper to the call site in the root through which it is reached.
+func (r *Region) Anchor(i ssa.Instruction) ssa.Instruction {
+	f := i.Parent()
+	for k := 0; k < 8 && f != r.Root; k++ {
+		s, ok := r.site[f]
+		if !ok {
+			return i
+		}
+		i = s.(ssa.Instruction)
+		f = r.owner[f]
+	}
+	return i
+}
+
+// Slice is sliceFrom continued through helper parameters into the arguments of the helper's call site.
+func (r *Region) Slice(v ssa.Value) *Slice {
+	out := &Slice{Vals: map[ssa.Value]bool{}}
+	seen := map[ssa.Value]bool{}
+	work := []ssa.Value{v}
+	for len(work) > 0 {
+		x := work[len(work)-1]
+		work = work[:len(work)-1]
+		if seen[x] {
+			continue
+		}
+		seen[x] = true
+		s := sliceFrom(x)
+		for y := range s.Vals {
+			if !out.Vals[y] {
+				out.Vals[y] = true
+				out.order = append(out.order, y)
+			}
+			if p, ok := y.(*ssa.Parameter); ok {
+				if st, bound := r.site[p.Parent()]; bound {
+					idx := paramIndex(p)
+					if idx >= 0 && idx < len(st.Common().Args) {
+						work = append(work, st.Common().Args[idx])
+					}
+				}
+			}
+		}
+	}
+	return out
+}
+
+// ErrorPropagated: the error of call c (possibly inside a helper) reaches the root's caller: propagated in its own function
+// and, for each enclosing helper, the helper's error is propagated at its call site.
+func (r *Region) ErrorPropagated(c ssa.CallInstruction) bool {
+	f := c.Parent()
+	for k := 0; k < 8; k++ {
+		if !errorPropagated(f, c, nil) {
+			return false
+		}
+		if f == r.Root {
+			return true
+		}
+		s, ok := r.site[f]
+		if !ok {
+			return false
+		}
+		c, f = s, r.owner[f]
+	}
+	return false
+}
+
+// BackSlice is backSlice continued through the parameters of region helpers into the arguments at their single call site.
+func (r *Region) BackSlice(v ssa.Value, o SliceOpts) *Slice {
+	out := &Slice{Vals: map[ssa.Value]bool{}}
+	seen := map[ssa.Value]bool{}
+	work := []ssa.Value{v}
+	for len(work) > 0 {
+		x := work[len(work)-1]
+		work = work[:len(work)-1]
+		if seen[x] {
+			continue
+		}
+		seen[x] = true
+		s := backSlice(x, o)
+		for _, y := range s.order {
+			if !out.Vals[y] {
+				out.Vals[y] = true
+				out.order = append(out.order, y)
+			}
+			if p, ok := y.(*ssa.Parameter); ok {
+				if st, bound := r.site[p.Parent()]; bound {
+					idx := paramIndex(p)
+					if idx >= 0 && idx < len(st.Common().Args) {
+						work = append(work, st.Common().Args[idx])
+					}
+				}
+			}
+		}
+	}
+	return out
+}
+
+// AllInstrs visits every instruction of the root and its helpers (function literals excluded).
+func (r *Region) AllInstrs(f func(ssa.Instruction)) {
+	for _, fn := range r.Fns {
+		allInstrs(fn, false, func(_ *ssa.Function, _ *ssa.BasicBlock, in ssa.Instruction) { f(in) })
+	}
+}
